@@ -348,7 +348,9 @@ class Flow:
             return "%s[%r]" % (self.origin(n, e.value, depth), e.slice.value)
         if isinstance(e, ast.Call):
             f = call_name(e) or "?"
-            return "%s(%s)" % (f, ", ".join(self.origin(n, a, depth) for a in e.args))
+            parts = [self.origin(n, a, depth) for a in e.args]
+            parts += sorted("%s=%s" % (k.arg, self.origin(n, k.value, depth)) for k in e.keywords if k.arg)
+            return "%s(%s)" % (f, ", ".join(parts))
         return norm_plain(e)
 
 
@@ -1109,10 +1111,11 @@ def run(ctx: Context):
         ps = idx.cls(UP + ":PeerSelector")
         mr = idx.func(UP + ":PeerSelector.mark_readonly_peer")
         pid = first_positional_params(mr)[0]
-        adds = [c for c in calls_in_func(mr, "add") if call_name(c) == "self.readonly_peers.add"
-                and [norm_plain(a) for a in c.args] == [pid]]
+        mrn = N(mr)
+        adds = [c for c in calls_in_func(mr, "add") if mrn.norm(c.func) == "self.readonly_peers.add"
+                and [mrn.norm(a) for a in c.args] == [pid]]
         rems = [c for c in list(calls_in_func(mr, "remove")) + list(calls_in_func(mr, "discard"))
-                if call_name(c) in ("self.peers.remove", "self.peers.discard") and [norm_plain(a) for a in c.args] == [pid]]
+                if mrn.norm(c.func) in ("self.peers.remove", "self.peers.discard") and [mrn.norm(a) for a in c.args] == [pid]]
         r.site(mr, None, "mark_readonly_peer")
         r.require(bool(adds) and bool(rems), mr, mr.loc(), "mark_readonly_peer must add the server to readonly_peers and "
                   "remove it from peers (a read-only server left in the writable set gets new shares)")
@@ -1312,7 +1315,8 @@ def run(ctx: Context):
                                     "remove", "discard", "pop", "clear", "difference_update", "intersection_update") \
                                 and id(x) not in flagged:
                             flagged.add(id(x))
-                            r.violation(sp, sp.loc(m.ast), "writable server removed from the candidate set `%s` by %s before "
+                            # construct = the removal call inside the function, so that another removal is a new finding
+                            r.violation("%s.%s" % (sp.qual, src(sp, x.func)), sp.loc(m.ast), "writable server removed from the candidate set `%s` by %s before "
                                         "phase %d: a server whose existing shares were all matched elsewhere can no longer "
                                         "receive new shares, so the spread is not maximal" % (nm, src(sp, x), k))
                         if isinstance(x, ast.Call) and isinstance(x.func, ast.Attribute) and isinstance(x.func.value, ast.Name) \
